@@ -103,7 +103,12 @@ FUTURE = 'to="2100-01-01 00:00:00"'
 # ------------------------------------------------------------------------------------------------
 # AST documents
 
-WORDS = ["foo", "bar();", "x = 1", "あいう", "é", "😀", "if (a) {", "}", "return", "// c", "a<b", "q"]
+WORDS = ["foo", "bar();", "x = 1", "あいう", "é", "😀", "if (a) {", "}", "return", "// c", "a<b", "q", "み¿ÿ", "タグ\ufeff", "🙿"]
+
+# characters whose UTF-8 encodings sit on the boundaries of the byte classes (continuation bytes 0x80 and
+# 0xBF, first / last code point of every encoded length)
+BOUNDARY_CHARS = ["\u0080", "\u00bf", "\u00c0", "\u00ff", "\u07ff", "\u0800", "\u0fff", "\u1000", "\u307f", "\u30bf", "\ud7ff",
+                  "\ue000", "\ufeff", "\uffff", "\U00010000", "\U0001f63f", "\U0003ffff", "\U00040000", "\U0010ffff", "\x7f", "\x00"]
 
 
 class DocGen:
@@ -115,6 +120,7 @@ class DocGen:
         self.unit = unit or rng.choice(["  ", "    ", "\t", "  ", "\t", " \t"])
         self.safe_text = safe_text
         self.strict_unwrap = False
+        self.multiline_close = 0.0
         self.blank_wrappers = 0.0     # probability that a wrapper line of an unwrap-block is blank
         self.used_blank_wrapper = False
         self.stats = {"elements": 0, "ready": 0, "pending": 0, "skip": 0, "unreg": 0, "unwrap": 0,
@@ -148,9 +154,9 @@ class DocGen:
         else:
             name, attrs = "unregistered", [EXPIRED]
         if unwrap:
-            attrs.append("unwrap-block")
+            attrs.append(r.choice(["unwrap-block"] * 6 + ['unwrap-block="true"', "unwrap-block=''", "unwrap-block=1"]))
         if r.random() < 0.2:
-            attrs.append('c="a comment"')
+            attrs.append(r.choice(['c="a comment"', 'c="a comment"', 'c="C:\\docs\\"', "c='x\\'", 'c="期限切れ"', "c='🧹'"]))
         r.shuffle(attrs)
         return name, attrs
 
@@ -165,7 +171,10 @@ class DocGen:
 
     def close_tag(self, name):
         pad = "" if self.rng.random() < 0.5 else " "
-        return self.ds + pad + "/" + name + pad + self.de
+        pad2 = pad
+        if self.multiline_close and self.rng.random() < self.multiline_close:
+            pad2 = self.rng.choice(["\n", "\n ", " \n", "\n\n"])     # a closing tag that spans lines
+        return self.ds + pad + "/" + name + pad2 + self.de
 
     def pick_kind(self, kinds):
         k = self.rng.choice(kinds)
